@@ -103,7 +103,7 @@ class Arith(System):
     nontrivial_per_config = True
 
     def warm(self): _load()
-    def reset_globals(self): fx.reset_globals()
+    def reset_globals(self): rc.reset_reaction_globals()
     def depth(self, tier): return 2
     def describe(self, tier):
         return dict(families={k: v[2] for k, v in FAMILIES.items()}, X_patterns=XPATTERNS, k=list(KS))
@@ -598,7 +598,7 @@ class Backwards(System):
     name = 'c17.backwards'
 
     def warm(self): _load()
-    def reset_globals(self): fx.reset_globals()
+    def reset_globals(self): rc.reset_reaction_globals()
     def depth(self, tier): return 1
 
     def configs(self, tier, seed):
